@@ -146,6 +146,10 @@ class Gen(object):
         if k == "appinfo":
             return {"k": "appinfo", "ns": self.ch(["ssl", "ns2"]), "d": self.ch(["www", "d2"])}
         if k == "date":
+            if self.p(0.12):
+                # the whole signed 64-bit range is a legal Date-Time (beyond what time.gmtime can render)
+                return {"k": "date", "v": self.ch([2 ** 62, -2 ** 62, 2 ** 63 - 1, -2 ** 63, 253402300800, -62135596801,
+                                                     67768036191676799, 67768036191676800, -1])}
             return {"k": "date", "v": self.ch([self.now, self.now - 1, self.now - 5, 1000, 1003, 0, self.now + 3])}
         return {"k": "other"}
 
